@@ -980,6 +980,8 @@ type c15Rig struct {
 	preConnect  func(e *ServerPreConnectEvent) // called WITHOUT mu held, on the requesting goroutine
 	baseline    map[string]bool
 	baselineN   int
+	// backend connections the proxy had not closed 10 s after HandleConn returned (set by close)
+	backendsLeftOpen []string
 }
 
 // c15DebugLeak (development aid): report goroutines left after a case as a failure with their stacks.
@@ -1254,6 +1256,23 @@ func (r *c15Rig) close() string {
 	}
 	// HandleConn returns once the client read loop saw the close and tore the player down.
 	r.wait(c15Watchdog, func() bool { return r.client == nil || r.handleDone })
+	// The player's teardown closes its backend connections itself (before the
+	// harness closes whatever is left): recorded for checks that judge it.
+	r.mu.Lock()
+	if r.client != nil && r.handleDone {
+		open := func() (names []string) {
+			for _, s := range r.sessionsLocked() {
+				if !s.peer.closed {
+					names = append(names, s.name)
+				}
+			}
+			return
+		}
+		if !r.waitLocked(c15Watchdog/2, func() bool { return len(open()) == 0 }) {
+			r.backendsLeftOpen = open()
+		}
+	}
+	r.mu.Unlock()
 	r.mu.Lock()
 	var ends []*c15End
 	if r.client != nil {
